@@ -9,7 +9,7 @@ Open Scope N_scope.
 Record datum := mkDatum {
   d_name : nat; d_ty : nat; d_size : N; d_align : N; d_uninit : bool; d_off : N }.
 Definition defs := list datum.
-Definition id := nat.
+Notation id := nat (only parsing).
 
 (* usize::MAX: the "not placed yet" offset given by the native builder *)
 Definition MAXU : N := 18446744073709551615.
